@@ -10,6 +10,10 @@
 //	                stream of invalid inputs, and directed adversarial shapes. One JSON line per case holding the
 //	                runner's Case (query, varsJSON, plan) and the same case in structured form for the Lean model.
 //
+//	-mode methods   -file <hand-written model .go(.tmpl)>: the methods of the probe's hand-written model as go/ast sees
+//	                them: receiver type, method name, whether the first parameter is a context, the parameter NAMES in
+//	                declaration order (reflection has no names), whether the last one is variadic. JSON.
+//
 // The generated servers themselves (real templates, real runtime) are driven by checks/c02.py with these cases.
 package main
 
@@ -18,6 +22,9 @@ import (
 	"encoding/json"
 	"flag"
 	"fmt"
+	goast "go/ast"
+	"go/parser"
+	"go/token"
 	"os"
 	"reflect"
 	"sort"
@@ -215,7 +222,45 @@ type ResolverJ struct {
 	Name string   `json:"name"`
 	List int      `json:"list"`
 	Args []FieldJ `json:"args"`
+	// bound to a method of a hand-written model (checks/c02.py merges -mode methods into the schema JSON)
+	Bound    string   `json:"bound,omitempty"`
+	HasCtx   bool     `json:"hasCtx,omitempty"`
+	Variadic bool     `json:"variadic,omitempty"`
+	Params   []string `json:"params,omitempty"`
 }
+
+// dropped: the method has no parameter for this argument (it is never unmarshalled, never handed over)
+func (r *ResolverJ) dropped(arg string) bool {
+	if r.Bound != "method" {
+		return false
+	}
+	n := len(r.Params)
+	if r.Variadic && n > len(r.Args) {
+		n = len(r.Args)
+	}
+	for _, p := range r.Params[:n] {
+		if strings.EqualFold(p, arg) {
+			return false
+		}
+	}
+	return true
+}
+
+func (r *ResolverJ) permuted() bool {
+	k := 0
+	for _, a := range r.Args {
+		if r.dropped(a.Name) {
+			continue
+		}
+		if k >= len(r.Params) || !strings.EqualFold(r.Params[k], a.Name) {
+			return true
+		}
+		k++
+	}
+	return false
+}
+
+func lowerFirst(s string) string { return strings.ToLower(s[:1]) + s[1:] }
 type SchemaJ struct {
 	Types  []TypeJ     `json:"types"`
 	Fields []ResolverJ `json:"fields"`
@@ -701,13 +746,14 @@ func (g *G) build(id string, uses []use, f64 bool) CaseJ {
 			fu.Path = alias
 			m.Fields = append(m.Fields, fu)
 		default:
-			// reached through Query.obj (single) or Query.objs (list of 2)
+			// reached through Query.obj (single) or Query.objs (list of 2); Query.meth / Query.meths for Meth
+			single := lowerFirst(u.res.Obj)
 			if i%2 == 0 {
-				sels = append(sels, alias+": obj { "+call+" }")
+				sels = append(sels, alias+": "+single+" { "+call+" }")
 				fu.Path = alias + "/" + u.res.Name
 				m.Fields = append(m.Fields, fu)
 			} else {
-				sels = append(sels, alias+": objs { "+call+" }")
+				sels = append(sels, alias+": "+single+"s { "+call+" }")
 				overrides[alias] = map[string]any{"kind": "value", "len": 2}
 				for k := 0; k < 2; k++ {
 					c := fu
@@ -779,8 +825,32 @@ func (g *G) random(i int, withArgs []*ResolverJ) CaseJ {
 	for k := 0; k < n; k++ {
 		res := withArgs[g.r.Below(len(withArgs))]
 		u := use{res: res}
+		if res.Bound == "method" {
+			g.tag("method-bound")
+			if res.HasCtx {
+				g.tag("method-ctx")
+			} else {
+				g.tag("method-noctx")
+			}
+			if res.permuted() {
+				g.tag("params-permuted")
+			}
+		}
 		for _, a := range res.Args {
 			required := a.Type.NN && a.Default == nil
+			if res.dropped(a.Name) {
+				// the method has no parameter for it: never unmarshalled. Always a valid literal, so that the
+				// operation is valid and the Spec (which coerces every argument) accepts it too
+				g.tag("argument-without-parameter")
+				if !required && g.r.Below(3) == 0 {
+					continue
+				}
+				iv := g.inval
+				g.inval = false
+				u.args = append(u.args, KV{a.Name, g.validNoNull(a.Type, 0)})
+				g.inval = iv
+				continue
+			}
 			if !required && g.r.Below(4) == 0 {
 				g.tag("argument-omitted")
 				if a.Default != nil {
@@ -806,10 +876,100 @@ func (g *G) random(i int, withArgs []*ResolverJ) CaseJ {
 			}
 			u.args = append(u.args, KV{a.Name, v})
 		}
+		if len(u.args) > 1 && g.r.Below(4) == 0 {
+			// GraphQL arguments are unordered: write them in another order than the schema declares them
+			g.tag("args-permuted-in-query")
+			for k := len(u.args) - 1; k > 0; k-- {
+				j := g.r.Below(k + 1)
+				u.args[k], u.args[j] = u.args[j], u.args[k]
+			}
+		}
 		uses = append(uses, u)
 	}
 	f64 := i%25 == 24 && len(g.vars) > 0
 	return g.build(fmt.Sprintf("r%d", i), uses, f64)
+}
+
+func (g *G) has(obj, name string) bool {
+	for i := range g.s.Fields {
+		if g.s.Fields[i].Obj == obj && g.s.Fields[i].Name == name {
+			return true
+		}
+	}
+	return false
+}
+
+// distinctVal: a valid, non-null value of type t that differs for different k (so that two parameters of the same Go
+// type that receive each other's value are told apart)
+func (g *G) distinctVal(t *TRef, k int) *V {
+	if t.Elem != nil {
+		return vList(g.distinctVal(t.Elem, 2*k+1), g.distinctVal(t.Elem, 2*k+2))
+	}
+	td := g.types[t.Name]
+	if td != nil && td.Kind == "enum" {
+		return vEnum(td.Values[k%len(td.Values)])
+	}
+	if td != nil && td.Kind == "input" {
+		var kvs []KV
+		for i, f := range td.Fields {
+			if f.Type.NN && f.Default == nil || i == 0 {
+				kvs = append(kvs, KV{f.Name, g.distinctVal(f.Type, k)})
+			}
+		}
+		return vObj(kvs...)
+	}
+	switch t.Name {
+	case "String":
+		return vStr(fmt.Sprintf("s%d", k))
+	case "ID", "MyID":
+		return vStr(fmt.Sprintf("id%d", k))
+	case "Boolean":
+		return vBool(k%2 == 0)
+	case "Float":
+		return vFloat(fmt.Sprintf("%d.5", k+1))
+	}
+	return vInt(strconv.Itoa(11 * (k + 1)))
+}
+
+// directedMethods: every field bound to a model method, with pairwise distinct values for all its arguments - as
+// literals, through variables, written in reverse order in the query, and with only the required arguments
+func (g *G) directedMethods(emit func(tags []string, f64 bool, uses ...use)) {
+	for i := range g.s.Fields {
+		res := &g.s.Fields[i]
+		if res.Bound != "method" || len(res.Args) == 0 {
+			continue
+		}
+		tags := []string{"method-bound", "method-noctx"}
+		if res.HasCtx {
+			tags[1] = "method-ctx"
+		}
+		if res.permuted() {
+			tags = append(tags, "params-permuted")
+		}
+		var lits, rev, vars, req []KV
+		for k, a := range res.Args {
+			lits = append(lits, KV{a.Name, g.distinctVal(a.Type, k)})
+			if a.Type.NN && a.Default == nil {
+				req = append(req, KV{a.Name, g.distinctVal(a.Type, k+3)})
+			}
+		}
+		for k := len(lits) - 1; k >= 0; k-- {
+			rev = append(rev, lits[k])
+		}
+		emit(append([]string{"literal"}, tags...), false, use{res: res, args: lits})
+		emit(append([]string{"literal", "args-permuted-in-query"}, tags...), false, use{res: res, args: rev})
+		// the same field twice in one operation (once below the list parent)
+		emit(append([]string{"literal"}, tags...), false, use{res: res, args: lits}, use{res: res, args: rev})
+		for k, a := range res.Args {
+			if res.dropped(a.Name) {
+				vars = append(vars, lits[k])
+				continue
+			}
+			vars = append(vars, KV{a.Name, g.mkVar(fmt.Sprintf("v%d", k), a.Type, nil, 0, g.distinctVal(a.Type, k+5))})
+		}
+		emit(append([]string{"variable"}, tags...), false, use{res: res, args: vars})
+		emit(append([]string{"literal", "argument-omitted"}, tags...), false, use{res: res, args: req})
+	}
 }
 
 func (g *G) find(obj, name string) *ResolverJ {
@@ -844,6 +1004,10 @@ func (g *G) directed() []CaseJ {
 		g.reset(false)
 	}
 	g.reset(false)
+	g.directedMethods(emit)
+	if !g.has("Query", "int") {
+		return out // not the main coercion probe (go/probes/coercemt): only the method-bound fields
+	}
 	q := func(name string, args ...KV) use { return use{res: g.find("Query", name), args: args} }
 	// boundary integers on every integer scalar, as literal / json.Number variable / string variable
 	ints := map[string]string{"int": "Int", "intNN": "Int", "i32": "Int32", "i64": "Int64", "u": "Uint", "u32": "Uint32", "u64": "Uint64",
@@ -1034,7 +1198,63 @@ func runGen(schemaPath string, seed uint64, n int) {
 	}
 }
 
+// runMethods: the methods declared in a hand-written model file, with their parameter names
+func runMethods(file string) {
+	fset := token.NewFileSet()
+	f, err := parser.ParseFile(fset, file, nil, 0)
+	if err != nil {
+		panic(err)
+	}
+	type mj struct {
+		Ctx      bool     `json:"hasCtx"`
+		Params   []string `json:"params"`
+		Variadic bool     `json:"variadic"`
+	}
+	res := map[string]map[string]mj{}
+	for _, d := range f.Decls {
+		fd, ok := d.(*goast.FuncDecl)
+		if !ok || fd.Recv == nil || len(fd.Recv.List) != 1 {
+			continue
+		}
+		rt := fd.Recv.List[0].Type
+		if st, ok := rt.(*goast.StarExpr); ok {
+			rt = st.X
+		}
+		id, ok := rt.(*goast.Ident)
+		if !ok {
+			continue
+		}
+		m := mj{Params: []string{}}
+		first := true
+		for _, p := range fd.Type.Params.List {
+			_, variadic := p.Type.(*goast.Ellipsis)
+			isCtx := false
+			if se, ok := p.Type.(*goast.SelectorExpr); ok && se.Sel.Name == "Context" {
+				isCtx = true
+			}
+			for _, n := range p.Names {
+				if first && isCtx {
+					m.Ctx = true
+					first = false
+					continue
+				}
+				first = false
+				m.Params = append(m.Params, n.Name)
+				m.Variadic = m.Variadic || variadic
+			}
+		}
+		if res[id.Name] == nil {
+			res[id.Name] = map[string]mj{}
+		}
+		res[id.Name][fd.Name.Name] = m
+	}
+	b, _ := json.Marshal(res)
+	out.Write(b)
+	out.WriteString("\n")
+}
+
 func main() {
+	file := flag.String("file", "", "")
 	mode := flag.String("mode", "scalars", "")
 	schema := flag.String("schema", "", "")
 	seed := flag.Uint64("seed", 1, "")
@@ -1046,5 +1266,7 @@ func main() {
 		runScalars()
 	case "gen":
 		runGen(*schema, *seed, *n)
+	case "methods":
+		runMethods(*file)
 	}
 }
